@@ -123,17 +123,18 @@ TypeConsistent(v, s) ==
 (* with k decoy digests per object.  A disclosure is [id, dg, dec, path].  *)
 (***************************************************************************)
 Salt(path, n) == "salt:" \o ToString(n) \o ":" \o path
-\* identities are structural (the decoded value itself), digests are <<"H", record>>: no ToString, whose output for
-\* equal values can differ between freshly built and stored values
-Dg(x) == <<"H", x>>
-MkDisc(dec, path) == [id |-> dec, dg |-> Dg(dec), dec |-> dec, path |-> path]
+\* symbolic, injective digest of a disclosure: a string, so that model payloads have the shape of real ones.
+\* (ToString is only ever applied here to a decoded disclosure built in one place; identities of JWTs, which are rebuilt
+\* by adversary steps, are structural - see SDJWTSys!MkJwt.)
+Dg(id) == "H:" \o id
+MkDisc(dec, path) == LET id == ToString(dec) IN [id |-> id, dg |-> Dg(id), dec |-> dec, path |-> path]
 RECURSIVE Iss(_,_,_,_)
 Iss(at, path, n, ndecoy) ==
   IF IsObj(at) THEN
      LET sub == TLCEval([k \in DOMAIN at.f |-> Iss(at.f[k].v, path \o "/" \o k, n, ndecoy)])
          hid == {k \in DOMAIN at.f : at.f[k].sd}
          disc(k) == MkDisc(JArr(<<JStr(Salt(path \o "/" \o k, n)), JStr(k), sub[k].p>>), path \o "/" \o k)
-         decoys == {Dg([decoy |-> j, n |-> n, at |-> path]) : j \in 1..ndecoy}
+         decoys == {Dg("decoy:" \o ToString(n) \o ":" \o path \o ":" \o ToString(j)) : j \in 1..ndecoy}
          sdl == SetToSeq({disc(k).dg : k \in hid} \cup decoys)
          keys == (DOMAIN at.f \ hid) \cup (IF sdl # <<>> THEN {"_sd"} ELSE {})
      IN [p |-> JObj([k \in keys |-> IF k = "_sd" THEN JArr([i \in DOMAIN sdl |-> JStr(sdl[i])]) ELSE sub[k].p]),
